@@ -93,6 +93,7 @@ type Pool struct {
 	n       int
 	txSeq   int
 	armAt   int
+	armPred func(PoolStep) bool
 	armMode PoolMode
 	fired   *PoolStep
 	halted  bool
@@ -143,19 +144,27 @@ func (p *Pool) GetDBConn() (*sql.DB, error) {
 // ResetSteps restarts the numbering at 1 and forgets the log and the armed fault.
 func (p *Pool) ResetSteps() {
 	p.mu.Lock()
-	p.steps, p.n, p.txSeq, p.armAt, p.armMode, p.fired = nil, 0, 0, 0, PoolOff, nil
+	p.steps, p.n, p.txSeq, p.armAt, p.armPred, p.armMode, p.fired = nil, 0, 0, 0, nil, PoolOff, nil
 	p.mu.Unlock()
 }
 
 // Arm injects mode at step number k (counted from the last ResetSteps). One shot.
 func (p *Pool) Arm(k int, mode PoolMode) {
 	p.mu.Lock()
-	p.armAt, p.armMode, p.fired = k, mode, nil
+	p.armAt, p.armPred, p.armMode, p.fired = k, nil, mode, nil
+	p.mu.Unlock()
+}
+
+// ArmWhen injects mode at the first step for which pred holds (e.g. an external step addressed by its label,
+// whose number depends on an order the harness does not control). One shot. pred must not call the pool.
+func (p *Pool) ArmWhen(pred func(PoolStep) bool, mode PoolMode) {
+	p.mu.Lock()
+	p.armAt, p.armPred, p.armMode, p.fired = 0, pred, mode, nil
 	p.mu.Unlock()
 }
 
 // Disarm removes an armed fault that has not fired.
-func (p *Pool) Disarm() { p.mu.Lock(); p.armAt, p.armMode = 0, PoolOff; p.mu.Unlock() }
+func (p *Pool) Disarm() { p.mu.Lock(); p.armAt, p.armPred, p.armMode = 0, nil, PoolOff; p.mu.Unlock() }
 
 // Fired returns the step at which the armed fault was applied (nil = not reached).
 func (p *Pool) Fired() *PoolStep { p.mu.Lock(); defer p.mu.Unlock(); return p.fired }
@@ -182,7 +191,7 @@ func (p *Pool) Restart() {
 	p.mu.Lock()
 	p.discardOpenLocked()
 	p.halted, p.busy = false, false
-	p.armAt, p.armMode = 0, PoolOff
+	p.armAt, p.armPred, p.armMode = 0, nil, PoolOff
 	p.mu.Unlock()
 }
 
@@ -216,7 +225,7 @@ func (p *Pool) step(tx int, kind, label string) error {
 	p.steps = append(p.steps, s)
 	tr := p.Trace
 	mode := PoolOff
-	if p.armMode != PoolOff && p.n == p.armAt {
+	if p.armMode != PoolOff && ((p.armPred == nil && p.n == p.armAt) || (p.armPred != nil && p.armPred(s))) {
 		mode = p.armMode
 		p.armMode = PoolOff
 		p.fired = &s
